@@ -111,7 +111,7 @@ Definition d_check (c : list Z * list dop * list (list Z)) : bool :=
   let '(f, ops, eo) := c in list_eqb zlist_eqb (dx_run ops (d_init f 0)) eo.
 
 (* --------------------------------------------- exhaustive families (checksummed) *)
-Definition hmix (h x : Z) : Z := (h * 1000003 + x + 7) mod 2305843009213693951.
+Definition hmix (h x : Z) : Z := Z.land (h * 1000003 + x + 7) 2305843009213693951.
 Definition hlist (h : Z) (l : list Z) : Z := fold_left hmix l (hmix h (Z.of_nat (length l))).
 Definition hobs (h : Z) (o : list (list Z)) : Z := fold_left hlist o h.
 
